@@ -34,9 +34,158 @@ theorem history_frame (s : St α) (ops : List Op) :
   rw [runOps_fst] at h
   exact ⟨h.es, h.us, h.bs, h.ids, h.tabs⟩
 
+/-- sanity: `e1 := e0 + e0` in GF(5) leaves `e0` alone and writes 4 to `e1` -/
+example : let s' := (step env5 (.prime 5) sErr (.eBin 1 "plus" 0 0)).1
+    (St.getL s'.es 0).map (·.val) = some 2 ∧ (St.getL s'.es 1).map (·.val) = some 4 := by decide
+
 /-- the write sets are tight on the element side: what was written can be read back -/
 example (s : St α) : St.getL (step env desc s (.eSetU 3 5)).1.es 3
     = some { eGet env s 3 with val := (fld env (eGet env s 3).home).ofNat 5 } :=
   St.getL_setL_same _ _ _
+
+/-! ### C16-2 : value-returning operations preserve their operands and read before they write -/
+
+/-- C16-2 (read-before-write form). For every single-destination value-returning operation
+    (`Op.isValue`: constructors, `eBin eUn ePow`, `uBin uUn uScale uPow uEval uCoef uLc uGcd uInterp`,
+    `bBin bUn bScale bPow bEval bCoef bLc bRem bInterp`, `iNew iCopy iGroebner`) there are a written value `w`
+    (possibly "nothing": the operation failed) and a reply, both determined by the OLD store alone, such that
+    running the operation with ANY destination `d'` — fresh, or equal to one of its operand registers —
+    yields exactly the old store with `d'` set to `w`, and that reply. `op` itself is `op.withDst op.dst`. -/
+theorem value_ops_read_before_write (s : St α) (op : Op) (hv : op.isValue = true) :
+    ∃ (w : Wr α) (reply : String), ∀ d', step env desc s (op.withDst d') = (s.write d' w, reply) :=
+  step_dst env desc s op hv
+
+/-- non-vacuity / sanity: `e0 := e0 * e0` (destination = both operands) computes 2*2 = 4 from the old value,
+    exactly as with the fresh destination 7 -/
+example : (Op.eBin 0 "times" 0 0).isValue = true := rfl
+example : (St.getL (step env5 (.prime 5) sErr (.eBin 0 "times" 0 0)).1.es 0).map (·.val) = some 4 ∧
+    (St.getL (step env5 (.prime 5) sErr (.eBin 7 "times" 0 0)).1.es 7).map (·.val) = some 4 ∧
+    (step env5 (.prime 5) sErr (.eBin 0 "times" 0 0)).2 = (step env5 (.prime 5) sErr (.eBin 7 "times" 0 0)).2 := by
+  decide
+
+/-- … in particular the result with an aliased destination equals the result with any other (e.g. fresh)
+    destination `d'`: same reply, same written value. -/
+theorem value_ops_alias_free (s : St α) (op : Op) (hv : op.isValue = true) (d' : Nat) :
+    ∃ w : Wr α, step env desc s op = (s.write op.dst w, (step env desc s op).2) ∧
+      step env desc s (op.withDst d') = (s.write d' w, (step env desc s op).2) := by
+  obtain ⟨w, reply, h⟩ := step_dst env desc s op hv
+  have h0 := h op.dst
+  rw [Op.withDst_dst] at h0
+  exact ⟨w, by rw [h0], by rw [h d', h0]⟩
+
+/-- C16-2 (operands preserved). A value-returning operation changes no register other than its
+    destination: every operand register different from `op.dst` (of any sort) is unchanged. -/
+theorem value_ops_preserve_operands (s : St α) (op : Op) (hv : op.isValue = true) (k : Nat) (hk : k ≠ op.dst) :
+    St.getL (step env desc s op).1.es k = St.getL s.es k ∧
+    St.getL (step env desc s op).1.us k = St.getL s.us k ∧
+    St.getL (step env desc s op).1.bs k = St.getL s.bs k ∧
+    St.getL (step env desc s op).1.ids k = St.getL s.ids k := by
+  obtain ⟨w, h, _⟩ := value_ops_alias_free env desc s op hv 0
+  rw [h]
+  cases w <;> unfold St.write <;>
+    first
+    | exact ⟨rfl, rfl, rfl, rfl⟩
+    | exact ⟨St.getL_setL_ne _ _ hk, rfl, rfl, rfl⟩
+    | exact ⟨rfl, St.getL_setL_ne _ _ hk, rfl, rfl⟩
+    | exact ⟨rfl, rfl, St.getL_setL_ne _ _ hk, rfl⟩
+    | exact ⟨rfl, rfl, rfl, St.getL_setL_ne _ _ hk⟩
+
+/-- the multi-destination operations: outputs and reply are independent of the destination list -/
+theorem uQuoRem_reads_before_write (s : St α) (a : Nat) (gs : List Nat) :
+    ∃ (o : Option (Nat × List (UPoly α))) (reply : String), ∀ dsts',
+      step env desc s (.uQuoRem dsts' a gs) =
+        (match o with
+          | none => s
+          | some (h, outs) =>
+            { s with us := (dsts'.zip outs).foldl (fun us (k, v) => St.setL us k { home := h, val := v }) s.us },
+         reply) :=
+  step_uQuoRem_dsts env desc s a gs
+
+theorem bQuoRem_reads_before_write (s : St α) (a : Nat) (gs : List Nat) :
+    ∃ (o : Option (Nat × List (BPoly α))) (reply : String), ∀ dsts',
+      step env desc s (.bQuoRem dsts' a gs) =
+        (match o with
+          | none => s
+          | some (h, outs) =>
+            { s with bs := (dsts'.zip outs).foldl (fun bs (k, v) => St.setL bs k { home := h, val := v }) s.bs },
+         reply) :=
+  step_bQuoRem_dsts env desc s a gs
+
+theorem iGens_reads_before_write (s : St α) (a : Nat) :
+    ∃ (outs : List (BPoly α)) (reply : String), ∀ dsts',
+      step env desc s (.iGens dsts' a) =
+        ({ s with bs := (dsts'.zip outs).foldl (fun bs (k, v) => St.setL bs k { home := 0, val := v }) s.bs },
+         reply) :=
+  step_iGens_dsts env desc s a
+
+/-! ### C16-3 : in-place operations return their receiver -/
+
+/-- C16-3. Under the operation's exact success guard `Op.recvOk` (spelled out per operation in
+    Proofs/Step.lean: operands error-free, not foreign, same field / ring — and nothing at all for
+    `SetNeg`, `SetUint`, `SetScale`, `SetCoef`, `SetZero` and polynomial `Mult`), the reply is
+    `"recv " ++ show r` and the new store is the old one with exactly the receiver register set to `r`. -/
+theorem inplace_returns_receiver (s : St α) (op : Op) (h : op.recvOk env s) :
+    (∃ (a : Nat) (r : EReg α), op.writesE = [a] ∧ op.writesU = [] ∧ op.writesB = [] ∧ op.writesI = [] ∧
+        step env desc s op = ({ s with es := St.setL s.es a r }, "recv " ++ showE env r)) ∨
+    (∃ (a : Nat) (r : UReg α), op.writesE = [] ∧ op.writesU = [a] ∧ op.writesB = [] ∧ op.writesI = [] ∧
+        step env desc s op = ({ s with us := St.setL s.us a r }, "recv " ++ showU env r)) ∨
+    (∃ (a : Nat) (r : BReg α), op.writesE = [] ∧ op.writesU = [] ∧ op.writesB = [a] ∧ op.writesI = [] ∧
+        step env desc s op = ({ s with bs := St.setL s.bs a r }, "recv " ++ showB env r)) := by
+  cases op <;> try (exact h.elim)
+  case eIn op a b =>
+    obtain ⟨hfa, hfb, hae, hbe, hh⟩ := h
+    obtain ⟨r0, hr0⟩ : ∃ r0, eInRes env s op a b = (r0, r0, true) := by
+      unfold eInRes
+      by_cases hop : (op == "mult") = true
+      · simp only [hop, if_true]
+        rw [eProdFn_ok env _ _ _ _ _ (hfa hop) hfb hae hbe hh]; exact ⟨_, rfl⟩
+      · simp only [hop, Bool.false_eq_true, if_false]
+        rw [eInPlace_ok env _ _ _ hfb hae hbe hh]; exact ⟨_, rfl⟩
+    refine .inl ⟨a, r0, rfl, rfl, rfl, rfl, ?_⟩
+    rw [step_eIn, hr0]; rfl
+  case eProd a b c =>
+    obtain ⟨hfb, hfc, hbe, hce, hh⟩ := h
+    obtain ⟨r0, hr0⟩ : ∃ r0, eProdRes env s a b c = (r0, r0, true) := by
+      unfold eProdRes
+      rw [eProdFn_ok env _ _ _ _ _ hfb hfc hbe hce hh]; exact ⟨_, rfl⟩
+    refine .inl ⟨a, r0, rfl, rfl, rfl, rfl, ?_⟩
+    rw [step_eProd, hr0]; rfl
+  case eSetNeg a => exact .inl ⟨a, _, rfl, rfl, rfl, rfl, rfl⟩
+  case eSetU a n => exact .inl ⟨a, _, rfl, rfl, rfl, rfl, rfl⟩
+  case uIn op a b =>
+    obtain ⟨r0, hr0⟩ : ∃ r0, uInRes env s op a b = (r0, r0, true) := by
+      unfold uInRes
+      by_cases hop : (op == "mult") = true
+      · simp only [hop, if_true]; exact ⟨_, rfl⟩
+      · obtain ⟨hae, hbe, hh⟩ := h.resolve_left hop
+        simp only [hop, Bool.false_eq_true, if_false]
+        rw [uInPlace_ok env _ _ _ hae hbe hh]; exact ⟨_, rfl⟩
+    refine .inr (.inl ⟨a, r0, rfl, rfl, rfl, rfl, ?_⟩)
+    rw [step_uIn, hr0]; rfl
+  case uSetNeg a => exact .inr (.inl ⟨a, _, rfl, rfl, rfl, rfl, rfl⟩)
+  case uSetScale a e => exact .inr (.inl ⟨a, _, rfl, rfl, rfl, rfl, rfl⟩)
+  case uSetCoef op a d e => exact .inr (.inl ⟨a, _, rfl, rfl, rfl, rfl, rfl⟩)
+  case uSetZero a => exact .inr (.inl ⟨a, _, rfl, rfl, rfl, rfl, rfl⟩)
+  case bIn op a b =>
+    obtain ⟨r0, hr0⟩ : ∃ r0, bInRes env s op a b = (r0, r0, true) := by
+      unfold bInRes
+      by_cases hop : (op == "mult") = true
+      · simp only [hop, if_true]; exact ⟨_, rfl⟩
+      · obtain ⟨hae, hbe, hh⟩ := h.resolve_left hop
+        simp only [hop, Bool.false_eq_true, if_false]
+        rw [bInPlace_ok env _ _ _ hae hbe hh]; exact ⟨_, rfl⟩
+    refine .inr (.inr ⟨a, r0, rfl, rfl, rfl, rfl, ?_⟩)
+    rw [step_bIn, hr0]; rfl
+  case bSetScale a e => exact .inr (.inr ⟨a, _, rfl, rfl, rfl, rfl, rfl⟩)
+  case bSetCoef op a d e => exact .inr (.inr ⟨a, _, rfl, rfl, rfl, rfl, rfl⟩)
+
+/-- non-vacuity: the guard holds for `e0.Add(e0)`, `e0.Prod(e0, e0)`, `p0.Add(p0)`, `q0.Sub(q0)` on `sErr` … -/
+example : (Op.eIn "add" 0 0).recvOk env5 sErr := by unfold Op.recvOk; decide
+example : (Op.eProd 0 0 0).recvOk env5 sErr := by unfold Op.recvOk; decide
+example : (Op.uIn "add" 0 0).recvOk env5 sErr := by unfold Op.recvOk; decide
+example : (Op.bIn "sub" 0 0).recvOk env5 sErr := by unfold Op.recvOk; decide
+/-- … and fails when the argument is erroneous: then *another* object is returned -/
+example : (step env5 (.prime 5) sErr (.eIn "add" 0 1)).2 = "other !InputValue" := by decide
+example : (step env5 (.prime 5) sErr (.eIn "add" 0 0)).2 = "recv 0#4" := by decide
 
 end Algobra.C16
